@@ -332,6 +332,13 @@ pub fn drive_c01(out: &mut dyn std::io::Write, seed: u64, thorough: bool) {
                 (r.iter().map(|b| b | 0x80).collect(), rng.bytes(nl).iter().map(|b| b | 0x80).collect()),
                 (r.clone(), vec![0x80u8; nl]),
             ];
+            // key halves equal except for one word
+            for w in 0..4usize {
+                let h2 = rng.bytes(16);
+                let mut k = [h2.clone(), h2].concat();
+                k[16 + 4 * w + 1] ^= 0x40;
+                kn.push((k, rng.bytes(nl)));
+            }
             for w in 0..nl / 4 {
                 let mut n = rng.bytes(nl).iter().map(|b| b | 1).collect::<Vec<u8>>();
                 for x in n[4 * w..4 * w + 4].iter_mut() {
@@ -340,7 +347,7 @@ pub fn drive_c01(out: &mut dyn std::io::Write, seed: u64, thorough: bool) {
                 kn.push((r.clone(), n));
             }
             for (i, (k, n)) in kn.iter().enumerate() {
-                ks_event(out, variant, k, n, [0u64, 37, 64, 300][i % 4], &vec![0u8; 70 + 67 * (i % 3)], "structured");
+                ks_event(out, variant, k, n, [0u64, 37, 64, 300][i % 4], &vec![0u8; [70usize, 137, 204, 600][i % 4]], "structured");
             }
         }
         // (iii) all-ones key and nonce (carries everywhere)
